@@ -177,6 +177,10 @@ pub fn compare(
                 "{class} [{vname}]: {}",
                 if *a { "accept" } else { "reject" }
             ));
+            ctx.sample(&format!("{class} [{vname}]"), || {
+                serde_json::json!({"class": class, "version": vname, "verdict_both": if *a { "accept" } else { "reject" },
+                    "proof_sha256_prefix": hex::encode(&<sha2::Sha256 as sha2::Digest>::digest(bytes)[..8]), "public_inputs": pi.len()})
+            });
             let mut key = bytes.to_vec();
             key.extend_from_slice(&rv.label);
             key.push(version as u8);
